@@ -503,6 +503,16 @@ pub fn c19_check(scn: &Scenario, h: &History) -> Outcome {
     for m in v {
         out.viol(m);
     }
+    // an effect of store X runs whatever store Y is doing: every effect returned for an action that
+    // store X accepted before its own stop() was called has run by the end
+    for (e, a) in lost {
+        let s = d.store_of_act(a);
+        let own_stop_inv = d.stores[s].first_stop_inv.unwrap_or(usize::MAX);
+        let accepted_before_stop = d.disp_of(a).map(|x| x.ok == Some(true) && x.ret.map(|r| r < own_stop_inv).unwrap_or(false)).unwrap_or(false);
+        if accepted_before_stop {
+            out.viol(format!("store {}: effect {} returned for action {} (accepted before that store's stop() was called) was never executed", s, e, a));
+        }
+    }
     // store 1 keeps working after store 0 was stopped
     let mut busy_after = false;
     if let Some(sr) = stop0_ret {
